@@ -424,7 +424,7 @@ def excess_of(ctx, v, bound, prec):
 STAGE_WALL = {}
 
 
-def certify_ladder(calls, builders, tag, budget, jobs=8):
+def certify_ladder(calls, builders, tag, budget, jobs=8, taylor=True):
     """calls: cid -> call dict; builders: cid -> function(stage) -> [instances].  Round 1: `i_bisect x, i_autodiff x`.
     Round 2 (for what is left): `i_taylor x` and the generator-side split at the critical points, side by side; the
     containment of a call is proved when all instances of ONE variant pass.
@@ -433,7 +433,7 @@ def certify_ladder(calls, builders, tag, budget, jobs=8):
     status = {}
     results = []
     pending = list(calls)
-    for rnd, stages in enumerate((("autodiff",), ("taylor", "split"))):
+    for rnd, stages in enumerate((("autodiff",), ("taylor", "split") if taylor else ("split",))):
         if not pending: break
         insts = []
         owner = {}
@@ -468,35 +468,62 @@ def certify_ladder(calls, builders, tag, budget, jobs=8):
     return status, results
 
 
-def run_elementary(rep, tier_, rng, budget=None):
-    """-> dict of coverage counters (to be merged by props/c14.py); violations are reported through rep.violation with
-    replay dicts containing {"fn": "iv.<f>", "regime": ...}."""
-    from mpmath import iv
-    load_known_b4(rep)
-    t0 = time.time()
-    budget = budget or (100 if tier_ == "quick" else 700)
+def gen_specs(rng, tier_):
+    """-> list of (fn, regime, prec, a, b, extra) ; extra = (y0, y1) for pow, (xa, xb) for atan2"""
     n = 64 if tier_ == "quick" else 900
     precs = [24, 53, 100] if tier_ == "quick" else [24, 53, 100, 200, 300]
-    ctx = hint_ctx()
-    calls = {}; builders = {}; direct = []; point_insts = []; wit = {}
-    counters = {"calls": 0, "raised": 0, "whole_line_results": 0}
     fns = ["exp", "log", "sin", "cos", "tan", "sin", "cos", "pow", "atan2"]
+    specs = []
     for i in range(n):
         fn = rng.choice(fns)
         prec = rng.choice(precs)
-        cid = "e%04d_%s" % (i, fn)
         if fn == "pow":
             regime, a, b, y0, y1 = gen_pow(rng, prec)
-            call, lo, hi = make_call(ctx, iv, fn, regime, prec, a, b, (y0, y1))
+            specs.append((fn, regime, prec, a, b, (y0, y1)))
         elif fn == "atan2":
             regime, (ya, yb), (xa, xb) = gen_atan2(rng, prec)
-            a, b = ya, yb
-            call, lo, hi = make_call(ctx, iv, fn, regime, prec, ya, yb, (xa, xb))
+            specs.append((fn, regime, prec, ya, yb, (xa, xb)))
         else:
             regime, a, b = gen_interval(rng, fn, prec)
             if a > b: a, b = b, a
             if fn == "log" and a <= 0: continue
-            call, lo, hi = make_call(ctx, iv, fn, regime, prec, a, b)
+            specs.append((fn, regime, prec, a, b, None))
+    return specs, precs
+
+
+def run_elementary(rep, tier_, rng, budget=None):
+    """-> dict of coverage counters (to be merged by props/c14.py); violations are reported through rep.violation with
+    replay dicts containing {"fn": "iv.<f>", "regime": ...}."""
+    load_known_b4(rep)
+    specs, precs = gen_specs(rng, tier_)
+    cov = process_specs(rep, specs, budget or (100 if tier_ == "quick" else 700), "C14E_%s_s%d" % (tier_, seed()),
+                        taylor=(tier_ != "quick"))        # i_taylor never closed a goal that i_autodiff left open: thorough tier only
+    cov["elementary_precisions"] = precs
+    return cov
+
+
+def replay_elementary(rep, r):
+    """re-run one recorded call (replay dict of a violation of this module) on the current tree"""
+    load_known_b4(rep)
+    fn = r["fn"].split(".", 1)[1]
+    extra = tuple(from_pair(p) for p in r["extra"]) if r.get("extra") else None
+    spec = (fn, r["regime"], int(r["prec"]), from_pair(r["a"]), from_pair(r["b"]), extra)
+    cov = process_specs(rep, [spec], 300, "C14E_replay")
+    if r.get("coq_replay"):
+        ok, out, cmd = cert.check_text(r["coq_replay"], tag="C14E_replay")
+        cov["stored_certificate_still_checks"] = ok
+    return cov
+
+
+def process_specs(rep, specs, budget, tag, taylor=True):
+    from mpmath import iv
+    t0 = time.time()
+    ctx = hint_ctx()
+    calls = {}; builders = {}; direct = []; point_insts = []; wit = {}
+    counters = {"calls": 0, "raised": 0, "whole_line_results": 0}
+    for i, (fn, regime, prec, a, b, extra) in enumerate(specs):
+        cid = "e%04d_%s" % (i, fn)
+        call, lo, hi = make_call(ctx, iv, fn, regime, prec, a, b, extra)
         counters["calls"] += 1
         if call["raised"]:
             counters["raised"] += 1
@@ -520,19 +547,18 @@ def run_elementary(rep, tier_, rng, budget=None):
         if viol:
             direct.append((viol, call)); del calls[cid]; continue
         if a == b:
-            point_insts += ins0; del calls[cid]; calls[cid] = call      # decided by the generic bound/negation machinery
-            builders[cid] = None
+            point_insts += ins0
+            builders[cid] = None                           # decided by the generic bound/negation machinery
             continue
         builders[cid] = mk
-        if a != b:
-            w = witness_instance(cid, ctx, fn, a, b, lo, hi, meta)
-            if w is not None: wit[cid] = w
+        w = witness_instance(cid, ctx, fn, a, b, lo, hi, meta)
+        if w is not None: wit[cid] = w
     for viol, call in direct:
         rep.violation("C14 %s: %s (regime %s, prec %d)" % (call["fn"], viol, call["regime"], call["prec"]), dict(call, clause="finite result"))
     # point goals + predicted witnesses first (cheap), then the universally quantified containment ladder
     pre = point_insts + list(wit.values())
     res_pre = cert.certify(pre, tactic_params={"sentence_timeout": 30, "single_timeout": 45}, jobs=4, timeout=budget * 0.25,
-                           tag="C14E_%s_points" % tier_) if pre else {"verdicts": {}, "cmds": [], "dir": ""}
+                           tag=tag + "_points") if pre else {"verdicts": {}, "cmds": [], "dir": ""}
     Vp = res_pre["verdicts"]
     stats = {"contain_pass": 0, "contain_fail": 0, "inconclusive": 0, "trivial": 0}
     by_fn = {}
@@ -562,7 +588,7 @@ def run_elementary(rep, tier_, rng, budget=None):
                                coq_replay=cert.replay_text(res_pre, cid + "_wit"), clause="containment"))
             continue
         ladder_calls[cid] = call
-    status, results = certify_ladder(ladder_calls, builders, "C14E_%s" % tier_, max(10, budget - (time.time() - t0)))
+    status, results = certify_ladder(ladder_calls, builders, tag, max(10, budget - (time.time() - t0)), taylor=taylor)
     inconc = []
     stages = {}
     for cid, (verdict, stage, secs) in status.items():
@@ -585,7 +611,7 @@ def run_elementary(rep, tier_, rng, budget=None):
         "elementary_whole_line_results": counters["whole_line_results"], "elementary_by_function": by_fn,
         "elementary_stage_histogram": stages, "elementary_stage_wall_s": dict(STAGE_WALL, points=res_pre.get("wall_s")), "elementary_regimes": regimes, "elementary_samples": samples,
         "elementary_long_endpoint_calls": sum(1 for c in calls.values() if "+long" in c["regime"]),
-        "elementary_precisions": precs, "elementary_wall_s": round(time.time() - t0, 1),
+        "elementary_wall_s": round(time.time() - t0, 1),
         "elementary_checker_cmd": cert.summarize_cmds(cmds)["pattern"], "elementary_coqc_runs": len(cmds),
         "elementary_technique": "forall x, a <= x <= b -> lo <= f x <= hi by interval (i_bisect x, i_autodiff x) -> i_taylor -> split at k*pi/2; "
                                 "failures certified by a member point; two-variable goals for x**[y] and atan2",
